@@ -73,7 +73,8 @@ class DashX:
     proved = False
     role = "bounded check: 6 fixed pattern lists x 2 front ends, as subprocesses"
 
-    CASES = [(["*.h", "!api.h"], "api.h"), (["*.h"], "main.c"), ([], "*.h"), (["sub/*", "!sub/keep.c"], "keep.c"),
+    CASES = [(["*.h", "!api.h"], "*.h"),          # the -x pattern repeats a pattern of the file: not redundant, the order counts
+             (["*.h", "!api.h"], "api.h"), (["*.h"], "main.c"), ([], "*.h"), (["sub/*", "!sub/keep.c"], "keep.c"),
              (["!api.h", "*.h"], "api.h"), (["util.h"], "!util.h")]
 
     def bound(self, tier):
